@@ -18,7 +18,7 @@ Interfaces: NestingConfig(max_nesting_depth: int = 4), from_dict class method fo
 Implementation: Dataclass with validation and defaults, matches reference implementation default
 """
 
-from dataclasses import dataclass
+from dataclasses import dataclass, field
 from typing import Any
 
 # Default nesting threshold constant
@@ -31,6 +31,7 @@ class NestingConfig:
 
     max_nesting_depth: int = DEFAULT_MAX_NESTING_DEPTH  # Default from reference implementation
     enabled: bool = True
+    ignore: list[str] = field(default_factory=list)  # Path patterns to skip
 
     def __post_init__(self) -> None:
         """Validate configuration values."""
@@ -60,4 +61,5 @@ class NestingConfig:
         return cls(
             max_nesting_depth=max_nesting_depth,
             enabled=config.get("enabled", True),
+            ignore=list(config.get("ignore", [])),
         )
